@@ -204,7 +204,7 @@ func (b *assignmentBuilder) structFieldAndStructGettersAndFields(lhs bmodel.Node
 		return true
 	}
 
-	if opts.Getter {
+	if opts.Getter && opts.Rule != gmodel.MatchRuleNone {
 		bmodel.IterateStructMethods(rhsStruct, handler)
 		if a != nil || err != nil {
 			return a, err
